@@ -227,6 +227,12 @@ def all_nodes(node, seen=None):
     if id(node) in seen or not isinstance(node, L["ConfigNode"]):
         return seen
     seen[id(node)] = node
+    for name, val in list(getattr(node, "__dict__", {}).items()):
+        # nodes kept in attributes (a function node's target may be a string NODE, an include node's file names are)
+        if name != "_children":
+            for x in (val if isinstance(val, list) else [val]):
+                if isinstance(x, L["ConfigNode"]):
+                    all_nodes(x, seen)
     if isinstance(node, L["ComposedNode"]):
         for n, c in list(node._children.items()) + (list(dict.items(node)) if isinstance(node, dict) else [(None, c) for c in list.__iter__(node)] if isinstance(node, list) else []):
             if isinstance(n, L["ConfigNode"]):
@@ -240,7 +246,8 @@ def xattrs(node):
     d = node.__dict__ if hasattr(node, "__dict__") else {}
     return {"type": type(node).__name__, "src": d.get("_source_file"), "idx": repr(d.get("_idx")), "ref_point": d.get("ref_point"),
             "rpp": repr(d.get("_ref_point_parsed")), "files": repr([str(f) for f in d["filenames"]]) if "filenames" in d else "", "pns": repr(d.get("persistent_namespace")),
-            "func": repr(d.get("_func")) if not callable(d.get("_func")) else getattr(d.get("_func"), "__qualname__", "?"),
+            "func": (type(d["_func"]).__name__ + ":" + str(d["_func"])) if isinstance(d.get("_func"), str)
+            else getattr(d.get("_func"), "__qualname__", repr(d.get("_func"))),
             "keys": sorted(k for k in d if k not in ("_children", "_pyyaml_node")),
             "value": repr(node) if not isinstance(node, (list, dict, tuple)) else ""}
 
@@ -603,7 +610,7 @@ def replay_line(args):
         elif mut and rec["st"] == "ok":
             res["drift"].append({"what": "mutation-not-applied", "variant": variant, "m": mut})
         bh = []
-        if do_behaves and rec["st"] == "ok" and not mut:
+        if do_behaves and rec["st"] == "ok" and not mut and variant == VARIANTS[ln["p"]][-1] and views_agree(o):
             nall = len(_W["ctx"])
             idx = range(nall) if nctx >= nall else sorted({(sum(ln["h"]) + j) % nall for j in range(nctx)})
             bh = behaves(case, variant, [(j, _W["ctx"][j]) for j in idx])
@@ -1082,8 +1089,14 @@ def run(prop, tier, seed, replay, keep):
                     r["out"] = r["out"][-2000:]
                     bn = ent[7]
                     lines.sort(key=lambda ln: json.dumps([ln["h"], ln["s"], ln["p"], ln["e"], ln["m"]], sort_keys=True))   # TLC's print order is not deterministic
-                    args = [(ent[1], ent[3], ln, bool(bn) and bool(ln.get("mm") or (sum(ln["h"]) * 7 + len(ln["p"])) % bn == 0) and ln["p"] != "copy",
-                             6 if (ln.get("mm") or not quick) else 2) for ln in lines]
+                    def pick(ln):       # which behaviours are also substituted into real merges and evaluated
+                        if not bn or ln["p"] == "copy":
+                            return False
+                        hv = sum(ln["h"]) * 7 + len(ln["p"])
+                        if ln.get("mm"):
+                            return hv % (4 if quick else 1) == 0
+                        return hv % bn == 0
+                    args = [(ent[1], ent[3], ln, pick(ln), 6 if (ln.get("mm") or not quick) else 2) for ln in lines]
                     asyncs[nm] = (lines, pool.map_async(replay_line, args, chunksize=max(1, len(args) // 256)))
         t_tlc = time.time() - t0
 
